@@ -85,6 +85,15 @@ func init() {
 	rf.OpW[OpAdvance] = 16
 	Profiles["refresh"] = rf
 
+	se := &Profile{Name: "sizeexp", OpW: baseWeights(), ForceSz: true, ForceExp: true, Boundary: 10}
+	se.OpW[OpSet] = 18
+	se.OpW[OpSetIfAbsent] = 8
+	se.OpW[OpAdvance] = 16
+	se.OpW[OpCleanUp] = 2
+	se.OpW[OpIterate] = 5
+	se.OpW[OpViews] = 3
+	Profiles["sizeexp"] = se
+
 	qu := &Profile{Name: "queued", OpW: baseWeights(), Queued: true, ForceSz: true, Boundary: 4}
 	qu.OpW[OpSet] = 24
 	qu.OpW[OpRunTasks] = 8
